@@ -1,7 +1,7 @@
 Require Extraction.
 Require Import ExtrOcamlBasic.
 From Coq Require Import NArith ZArith List.
-From CppcmsV Require Import C13.Defs.
+From CppcmsV Require Import C13.Defs C13.PageDefs.
 Definition keep_types : (N * Z * nat) := (0%N, 0%Z, 0%nat).
 Extraction "c13m.ml" keep_types normalize normalize_ip resolve render split_slash ensure_slash is_file_prefix alias_url
-  fs_realpath fs_handle fs_file_id  good_comp.
+  fs_realpath fs_handle fs_file_id  good_comp listing_page.
